@@ -67,6 +67,7 @@ type progState struct {
 	AstDiff       string
 	Deterministic bool
 	SourceMapSame string
+	Deps          string // GD line payload (flow programs whose generated file parses)
 
 	Runnable bool
 	obs      map[int][]string // sid -> observation lines
@@ -347,6 +348,9 @@ func writeOutput(c *config, states []*progState, elapsed time.Duration) error {
 			}
 			emit("G %d parses=%d typechecks=%d directives_left=%d astdiff=%s deterministic=%d sourcemap_same=%s modifier_compiles=%s",
 				p.PID, b2i(st.Parses), b2i(st.Typechecks), st.DirLeft, st.AstDiff, b2i(st.Deterministic), st.SourceMapSame, mc)
+			if p.Kind == "flow" && st.Parses {
+				emit("GD %d %s", p.PID, st.Deps)
+			}
 			report(st, "-", checkStatic(st))
 		}
 		if !st.Runnable {
